@@ -232,7 +232,73 @@ func buildTargets() []*target {
 	}
 }
 
-var targets = buildTargets()
+// Every read operation of a target is aimed at every place any of them is aimed at, and at the ways such a path stops
+// resolving: an absent member in last position, an absent member FOLLOWED BY MORE PATH (the form in which a lookup helper
+// shared with Set would create the missing intermediate container in the shared value), a tail below a leaf.
+func widen(ts []*target) []*target {
+	for _, t := range ts {
+		seen := map[string]bool{}
+		var all [][]string
+		add := func(p []string) {
+			k := strings.Join(p, "\x00")
+			if !seen[k] {
+				seen[k] = true
+				all = append(all, append([]string(nil), p...))
+			}
+		}
+		var base [][]string
+		base = append(base, t.gets...)
+		base = append(base, t.lens...)
+		for _, c := range t.cmps {
+			base = append(base, c.path)
+		}
+		for _, l := range t.loops {
+			base = append(base, l.path)
+		}
+		for _, p := range base {
+			add(p)
+		}
+		for _, p := range base {
+			add(append(append([]string(nil), p...), "zz-absent"))
+			add(append(append([]string(nil), p...), "zz-absent", "tail"))
+			if len(p) > 0 {
+				add(append(append([]string(nil), p[:len(p)-1]...), "zz-absent", "tail"))
+				add(append(append([]string(nil), p[:len(p)-1]...), "zz-absent", "tail", "deeper"))
+			}
+		}
+		have := map[string]bool{}
+		for _, l := range t.loops {
+			have["l"+strings.Join(l.path, "\x00")] = true
+		}
+		for _, p := range t.gets {
+			have["g"+strings.Join(p, "\x00")] = true
+		}
+		for _, p := range t.lens {
+			have["n"+strings.Join(p, "\x00")] = true
+		}
+		for _, c := range t.cmps {
+			have["c"+strings.Join(c.path, "\x00")] = true
+		}
+		for _, p := range all {
+			k := strings.Join(p, "\x00")
+			if !have["g"+k] {
+				t.gets = append(t.gets, p)
+			}
+			if !have["n"+k] {
+				t.lens = append(t.lens, p)
+			}
+			if !have["c"+k] {
+				t.cmps = append(t.cmps, cmpCase{p, []string{"nil", "1", "x"}[len(p)%3]})
+			}
+			if !have["l"+k] {
+				t.loops = append(t.loops, mp(p...))
+			}
+		}
+	}
+	return ts
+}
+
+var targets = widen(buildTargets())
 
 // ---- the state of every shared value of the run before the goroutines start -----------------
 
